@@ -96,7 +96,7 @@ Proof.
   { (* SDK v1, no table entry: refused as an invalid parameter; there are no requests at all *)
     unfold v1_empty_batch in E0. destruct s; [|discriminate]. rewrite Hf in E0. destruct reqs; [|discriminate].
     cbn. split; [discriminate|]. intros _ H. inversion H. }
-  unfold batch_write_core. rewrite Hf, Hok. cbn [negb andb].
+  unfold batch_write_core, forced_blocks. rewrite Hf, Hok. cbv iota. cbn [negb andb].
   change batch_limit with 25. split.
   - intros ->. reflexivity.
   - intros ->. intros H.
@@ -112,7 +112,7 @@ Theorem write_request_shape lm s c reqs :
 Proof.
   intros Hf H. unfold batch_write. destruct (v1_empty_batch s c reqs) eqn:E0.
   { unfold v1_empty_batch in E0. destruct s; [|discriminate]. rewrite Hf in E0. destruct reqs; [|discriminate]. cbn in H. discriminate. }
-  unfold batch_write_core. now rewrite Hf, H.
+  unfold batch_write_core, forced_blocks. now rewrite Hf, H.
 Qed.
 
 (* ---- expression attribute names and values ---- *)
